@@ -4,6 +4,7 @@ import OmplModel.Proofs.RRT
 import OmplModel.Proofs.RRTConnect
 import OmplModel.Proofs.RRTReal
 import OmplModel.Proofs.LazyPRM
+import OmplModel.Proofs.LazyPRMComp
 /-!
 # C01 — geometric planners only report solution paths that are real
 
@@ -113,6 +114,39 @@ theorem addSolutionPath_registers (zero minusOne : D) (lt : D → D → Bool) (b
         hasApproximateSolution lt better (addSolutionPath zero pd path a d) = a ∧
         getSolutionDifference lt better minusOne (addSolutionPath zero pd path a d) = (if a then d else zero)) :=
   ⟨addSolutionPath_count _ _ _ _ _, rfl, fun h => addSolutionPath_fresh zero minusOne lt better pd h path a d⟩
+
+/-- **The approximate-solution bookkeeping the tree planners share** (`approxdif`, `approxsol`, the epilogue with
+`addSolutionPath(path, approximate, approxdif, name)` and `return {solved, approximate}`), for every sequence of motions
+tested against the goal, every goal distance, comparison and threshold: a solution status reports a motion that was
+tested, with the difference equal to its goal distance, flagged approximate exactly when it does not satisfy the goal
+(and then nothing tested satisfied the goal), status EXACT iff not approximate; otherwise TIMEOUT and nothing reported. -/
+theorem approx_bookkeeping_real {M : Type} (goalDist : M → D) (lt : D → D → Bool) (threshold inf : D) (ms : List M) :
+    let r := (ms.foldl (fun t m => t.observe goalDist lt threshold m) (⟨none, none, inf⟩ : Tracker M D)).finish
+    (r.2.toBool = true → ∃ m approx dif, r.1 = some (m, approx, dif) ∧ m ∈ ms ∧ dif = goalDist m ∧
+        (approx = false ↔ lt (goalDist m) threshold = true) ∧
+        (approx = true → ∀ x ∈ ms, lt (goalDist x) threshold = false) ∧
+        (r.2 = .exactSolution ↔ approx = false) ∧ (r.2 = .approximateSolution ↔ approx = true)) ∧
+      (r.2.toBool = false → r.1 = none ∧ r.2 = .timeout) := by
+  have hinv := tracker_run_inv goalDist lt threshold inf ms
+  generalize ms.foldl (fun t m => t.observe goalDist lt threshold m) (⟨none, none, inf⟩ : Tracker M D) = t at hinv
+  simp only [Tracker.finish]
+  split
+  · next m hm =>
+    obtain ⟨a, b, c⟩ := hinv.sol m hm
+    exact ⟨fun _ => ⟨m, false, t.approxdif, rfl, a, c, by simp [b], by simp, by simp [Status.ofFlags], by simp [Status.ofFlags]⟩,
+      fun h => by simp [Status.ofFlags, Status.toBool] at h⟩
+  · next hnone =>
+    split
+    · next m hm =>
+      obtain ⟨a, b, c⟩ := hinv.approx hnone m hm
+      exact ⟨fun _ => ⟨m, true, t.approxdif, rfl, a, c, by simp [b], fun _ => hinv.none_sat hnone,
+        by simp [Status.ofFlags], by simp [Status.ofFlags]⟩, fun h => by simp [Status.ofFlags, Status.toBool] at h⟩
+    · exact ⟨fun h => by simp [Status.ofFlags, Status.toBool] at h, fun _ => ⟨rfl, rfl⟩⟩
+
+example : ((([1, 9, 4] : List Nat).foldl (fun t m => t.observe (fun m => if m < 6 then 6 - m else m - 6) (fun a b => decide (a < b)) 1 m)
+    (⟨none, none, 1000⟩ : Tracker Nat Nat)).finish) = (some (4, true, 2), .approximateSolution) := by decide
+example : ((([1, 6, 4] : List Nat).foldl (fun t m => t.observe (fun m => if m < 6 then 6 - m else m - 6) (fun a b => decide (a < b)) 1 m)
+    (⟨none, none, 1000⟩ : Tracker Nat Nat)).finish) = (some (6, false, 0), .exactSolution) := by decide
 
 /-! ## L1: planners as oracle machines -/
 
@@ -613,26 +647,66 @@ theorem lazyprm_path_checks (cfg : LazyPRM.Cfg S D) (hsym : ∀ a b, cfg.checkMo
       · rw [hsym]; exact hab
     exact RRT.chain_getElem _ _ hch
 
-/-- **Component bookkeeping, partial.**  Proved: `markComponent`, `uniteComponents` and the relabelling after removals
-change nothing but component ids and `componentSize_` (states, liveness, validity flags, edges and the nearest-neighbour
-list are untouched), so no property above depends on the bookkeeping being right.  NOT proved here (full statement):
-"two vertices with the same component id are connected in the current roadmap".  Reading the code: the id classes stay
-sound — after a vertex removal every remaining piece of the start's component contains a former neighbour and is
-relabelled breadth-first with a fresh id, after an edge removal the `pos` side is — but `componentSize_` goes stale:
-removed vertices are never subtracted from their component's size (it only steers which side `uniteComponents`
-relabels).  Soundness of the ids is instead checked at run time on the REAL roadmap by the lock-step harness
-(`componentAudit`: 0 same-id-but-disconnected pairs on every run). -/
-theorem lazyprm_components_sound_partial (r : LazyPRM.Roadmap S D) (a b c : Nat) (l : List Nat) :
-    ((LazyPRM.markComponent r a c).states = r.states ∧ (LazyPRM.markComponent r a c).alive = r.alive ∧
-        (LazyPRM.markComponent r a c).vflag = r.vflag ∧ (LazyPRM.markComponent r a c).edges = r.edges) ∧
-      ((LazyPRM.uniteComponents r a b).states = r.states ∧ (LazyPRM.uniteComponents r a b).alive = r.alive ∧
-        (LazyPRM.uniteComponents r a b).vflag = r.vflag ∧ (LazyPRM.uniteComponents r a b).edges = r.edges) ∧
-      ((LazyPRM.relabelNeighbours c l r).states = r.states ∧ (LazyPRM.relabelNeighbours c l r).alive = r.alive ∧
-        (LazyPRM.relabelNeighbours c l r).vflag = r.vflag ∧ (LazyPRM.relabelNeighbours c l r).edges = r.edges) := by
-  obtain ⟨a1, a2, a3, a4, _⟩ := LazyPRM.markComponent_core r a c
-  obtain ⟨b1, b2, b3, b4, _⟩ := LazyPRM.uniteComponents_core r a b
-  obtain ⟨c1, c2, c3, c4, _⟩ := LazyPRM.relabelNeighbours_core c l r
-  exact ⟨⟨a1, a2, a3, a4⟩, ⟨b1, b2, b3, b4⟩, ⟨c1, c2, c3, c4⟩⟩
+/-- **Component bookkeeping is sound**: for every configuration, start set, termination count and event script, if the
+model's own self-checks never failed (`Roadmap.stale = false`: after every breadth-first relabelling every edge joins
+equal ids, and after the relabelling that follows a vertex removal the old id is gone — the flag is printed by the driver
+and is false on every lock-step run), then in the final roadmap (a) every edge joins two vertices with the same component
+id, (b) ids in use are below `componentCount_`, and (c) **two vertices of the graph with the same component id are
+connected** by a walk of current edges.  What is *not* kept sound by the code is `componentSize_`: removed vertices are
+never subtracted from their component's size (it only steers which side `uniteComponents` relabels).  The self-checks
+stand in for a proof that `markLoop`'s fuel (2·|E| + 2 pops) always suffices. -/
+theorem lazyprm_components_sound (cfg : LazyPRM.Cfg S D) (starts : Array S) (ptc : Nat) (evs : List (LazyPRM.Event S))
+    (hst : (LazyPRM.solve cfg starts ptc evs).rm.stale = false) :
+    (∀ e ∈ (LazyPRM.solve cfg starts ptc evs).rm.edges,
+        LazyPRM.compOf (LazyPRM.solve cfg starts ptc evs).rm e.u = LazyPRM.compOf (LazyPRM.solve cfg starts ptc evs).rm e.v) ∧
+      (∀ v, LazyPRM.isAlive (LazyPRM.solve cfg starts ptc evs).rm v = true →
+        LazyPRM.compOf (LazyPRM.solve cfg starts ptc evs).rm v < (LazyPRM.solve cfg starts ptc evs).rm.compCount) ∧
+      (∀ u v, LazyPRM.isAlive (LazyPRM.solve cfg starts ptc evs).rm u = true →
+        LazyPRM.isAlive (LazyPRM.solve cfg starts ptc evs).rm v = true →
+        LazyPRM.compOf (LazyPRM.solve cfg starts ptc evs).rm u = LazyPRM.compOf (LazyPRM.solve cfg starts ptc evs).rm v →
+        LazyPRM.Conn (LazyPRM.solve cfg starts ptc evs).rm.edges u v) := by
+  have key : LazyPRM.Good (LazyPRM.solve cfg starts ptc evs).rm := by
+    revert hst
+    unfold LazyPRM.solve
+    simp only
+    have hds := (drainStarts_spec cfg.bounds cfg.valid starts (starts.size + 1) {}).1
+    generalize drainStarts cfg.bounds cfg.valid starts (starts.size + 1) {} = ds at hds
+    have hvs : ∀ x ∈ ds.1, LazyPRM.ValidStart cfg starts x.2 := by
+      intro x hx
+      obtain ⟨hi, h1, h2, h3, _⟩ := hds x hx
+      exact ⟨x.1, hi, h1, h2, h3⟩
+    obtain ⟨s1, s2⟩ := LazyPRM.addStarts_spec cfg starts ds.1 {} [] (LazyPRM.empty_rinv cfg) hvs (fun v hv => by simp at hv)
+    have ga := LazyPRM.addStarts_good cfg ds.1 {} [] (LazyPRM.empty_rinv cfg) (fun _ => LazyPRM.empty_good)
+    generalize LazyPRM.addStarts cfg ds.1 {} [] = as at s1 s2 ga
+    split
+    · exact fun h => (ga h).1
+    · split
+      · exact fun h => (ga h).1
+      · have hg := (goalOuter_spec cfg.bounds cfg.valid cfg.goalSample cfg.maxGoalSamples (ptc + 1)
+          ds.2.sampledGoalsCount (List.replicate ptc false)).2.2
+        generalize goalOuter cfg.bounds cfg.valid cfg.goalSample cfg.maxGoalSamples (ptc + 1)
+          ds.2.sampledGoalsCount (List.replicate ptc false) = g at hg
+        split
+        · exact fun h => (ga h).1
+        · next x hx =>
+          obtain ⟨g1, g2, g3, _, _, g6⟩ := hg x hx
+          obtain ⟨a1, a2, a3, a4, a5, a6⟩ := LazyPRM.addMilestone_spec cfg as.1 x.2 s1
+          have hk := LazyPRM.addMilestone_keeps cfg _ as.1 x.2 s1 as.2 s2
+          have gm := LazyPRM.addMilestone_good cfg as.1 x.2 s1 (fun hs => (ga hs).1)
+          generalize ham : LazyPRM.addMilestone cfg as.1 x.2 = am at a1 a2 a3 a4 a5 a6 hk gm
+          have hst0 : LazyPRM.StInv cfg starts (LazyPRM.initSt cfg am.1 as.2 am.2
+              (LazyPRM.solve.pisOf ds.2 g.2.1) g.2.2.length) := by
+            refine ⟨a1, hk, ?_, fun p hp => by simp [LazyPRM.initSt] at hp⟩
+            intro v hv
+            simp only [LazyPRM.initSt, List.mem_singleton] at hv
+            subst hv
+            refine ⟨a5, x.2, ?_, ⟨x.1, g6, g1.symm, g2, g3⟩⟩
+            show am.1.states[am.2]? = some x.2
+            rw [a4, a3, Array.getElem?_push]; simp
+          have gl := LazyPRM.loop_good cfg starts (evs.length + 1) _ evs hst0 (fun hs => (gm hs).1)
+          generalize LazyPRM.loop cfg (evs.length + 1) _ evs = r at gl
+          split <;> exact fun h => (gl h).1
+  exact ⟨key.same, fun v hv => key.bound v (key.aliveLt v hv), key.sound⟩
 
 end LazyPRM
 
@@ -737,6 +811,11 @@ example : (LazyPRM.solve toyL #[30, 0] 10 toyEvents).status = .exactSolution ∧
     (LazyPRM.solve toyL #[30, 0] 10 toyEvents).added = some ([0, 3, 6, 8], false, 4) ∧
     (LazyPRM.solve toyL #[30, 0] 10 toyEvents).oracleBad = false ∧
     (LazyPRM.solve toyL #[30, 0] 10 toyEvents).rm.alive = #[true, true, true, false, true] := by decide
+/-- the self-check flag stays false on this run (the hypothesis of `lazyprm_components_sound` is satisfiable, with a vertex
+removal, two edge removals and several relabellings behind it), and the ids are as the theorem says: vertex 3 is out,
+the rest share one component -/
+example : (LazyPRM.solve toyL #[30, 0] 10 toyEvents).rm.stale = false ∧
+    (LazyPRM.solve toyL #[30, 0] 10 toyEvents).rm.comp = #[6, 6, 6, 4, 6] := by decide
 /-- interrupted before the last sample: TIMEOUT, nothing added, the removed vertex stays removed -/
 example : (LazyPRM.solve toyL #[30, 0] 10 (toyEvents.take 5)).status = .timeout ∧
     (LazyPRM.solve toyL #[30, 0] 10 (toyEvents.take 5)).added = none ∧
